@@ -68,4 +68,15 @@ CHECKS = {
   'note': TB + " lower (largeToSmallTable) is written by hand in the model: the table is filled by a loop in init(), which the translator does not evaluate.",
   'technique': 'Coq proof of the bitmap matcher + correspondence + differential search over name sets and keys',
  },
+ 'C06': {
+  'text': ("Proof (Coq): in the models a read outside an array is the value Stuck and an exhausted loop bound is the value Fuel; for EVERY input neither is "
+           "produced by the integer decoder, the interface{} decoder (objects, arrays, strings with in-place unescape, numbers, literals, trailing check), "
+           "Compact, the JSON Path parser and the bitmap key matcher; an opener beyond the nesting limit is always refused. The runtime remainder is observed: "
+           "16 entry points x (corpus, every truncation, single-byte mutations, 256-byte x 27-context sweep, failing and piecewise readers) under recover, "
+           "nesting-limit verdicts at 9999..20001 levels against encoding/json, and 10^5/10^6-level (thorough: 10^7) documents in child processes under a "
+           "timeout. Partial: stream scanners, skip functions, typed decoders and the raw struct-key scanner are not modelled; real stack limits and hangs "
+           "are exit statuses of child processes, not theorems."),
+  'note': TB,
+  'technique': 'Coq totality theorems (no Stuck, no Fuel) + panic/crash/hang search in-process and in child processes',
+ },
 }
